@@ -45,7 +45,12 @@ func main() {
 	if actor == "" {
 		return
 	}
-	// first fetch
+	// first fetches: directly, and through a redirect
+	if moved := os.Getenv("PROBE_MOVED"); moved != "" {
+		if t, ok := pub.New(moved, nil).(pub.Tangible); ok {
+			t.Preview(40)
+		}
+	}
 	item := pub.New(actor, nil)
 	if t, ok := item.(pub.Tangible); ok {
 		t.String(80)
